@@ -86,8 +86,22 @@ def check(F, rep):
     body = max(rs, key=lambda g: len(g.blocks))
     rep.fn(body)
     em = [(b, t) for b, t in body.calls() if call_matches(t, r"AddressLookupStream::empty$")]
-    ie = [(b, t) for b, t in body.calls() if call_matches(t, r"Vec::is_empty$|slice::is_empty$")]
-    ok = len(em) == 1 and len(ie) >= 1
+    ie = [(b, t) for b, t in body.calls() if call_matches(t, r"Vec::is_empty$|slice::is_empty$|::is_empty$")]
+    tests = [call_result_tests(body, b, family="bool")[0] for b, t in ie]
+    # `len() == 0` / `len() < 1` ... : truth of the comparison <=> empty
+    for cb, s_, ts in cmp_tests(body):
+        for p_, q_, flip in ((s_["rv"]["a"], s_["rv"]["b"], False), (s_["rv"]["b"], s_["rv"]["a"], True)):
+            k = const_int(F, q_)
+            dc = def_call(body, op_base(p_)) if op_base(p_) is not None else None
+            if k is None or dc is None or not call_matches(dc[1], r"(Vec|slice|VecDeque)::.*len$|::len$"):
+                continue
+            op = s_["rv"]["op"]
+            op = {"Lt": "Gt", "Gt": "Lt", "Le": "Ge", "Ge": "Le"}.get(op, op) if flip else op
+            if (op, k) in (("Eq", 0), ("Lt", 1), ("Le", 0)):
+                tests.append(ts)
+            elif (op, k) in (("Ne", 0), ("Gt", 0), ("Ge", 1)):
+                tests.append([Test(x.bb, x.failure, x.success, x.level, x.family, not x.neg, x.local) for x in ts])
+    ok = len(em) == 1 and len(tests) >= 1
     if ok:
-        ok = any(requires(body, em[0][0], call_result_tests(body, b, family="bool")[0]) for b, t in ie)
+        ok = any(requires(body, em[0][0], ts) for ts in tests)
     rep.ob("resolve", ok, site(body), "resolve() returns AddressLookupStream::empty() exactly under services.is_empty()", AL + "AddressLookupServices::resolve|empty-iff-no-services")
